@@ -45,6 +45,10 @@ class MinMaxValue(GenericValue):
             # the only comparison raised (or its value could not be copied)
             return
 
+        if isinstance(self._ast_node, ast.JoinedStr):
+            # f-strings are under the control of the user and never changed
+            return
+
         new_token = value_to_token(self._new_value)
         if not self.cmp(self._old_value, self._new_value):
             flag = "fix"
@@ -52,7 +56,6 @@ class MinMaxValue(GenericValue):
             flag = "trim"
         elif (
             self._ast_node is not None
-            and not isinstance(self._ast_node, ast.JoinedStr)
             and self._file._token_of_node(self._ast_node) != new_token
         ):
             flag = "update"
